@@ -2196,6 +2196,11 @@ impl Interpreter {
                             if let Some(env_data) = env_ref.as_environment() {
                                 let var_key = VarKey(binding_name.cheap_clone());
                                 if let Some(binding) = env_data.bindings.get(&var_key) {
+                                    // `import { x } from "./c"; export { x }`: the exported binding is
+                                    // itself an import - follow it to the module that owns the value
+                                    if let Some(ref import_binding) = binding.import_binding {
+                                        return self.resolve_import_binding(import_binding);
+                                    }
                                     return Ok(binding.value.clone());
                                 }
                             }
@@ -4058,6 +4063,11 @@ impl Interpreter {
                 if let Some(env_data) = env_ref.as_environment() {
                     let key = VarKey(binding_name.cheap_clone());
                     if let Some(binding) = env_data.bindings.get(&key) {
+                        // An exported import: follow it to the module that owns the value
+                        if let Some(ref import_binding) = binding.import_binding {
+                            let value = self.resolve_import_binding(import_binding)?;
+                            return Ok(Guarded::unguarded(value));
+                        }
                         return Ok(Guarded::unguarded(binding.value.clone()));
                     }
                 }
